@@ -82,3 +82,97 @@ fn std_slice_iter_small() {
         None => assert!(len == 0, "split_last: None only for the empty slice"),
     }
 }
+
+// ---- rule R20 / assumption A12: the iterator pipelines the four R20 functions use compute what the explicit loop computes ----
+extern crate alloc;
+use alloc::vec::Vec;
+
+/// BOUNDED (<= 3 elements): `into_iter().map(f).collect::<Vec<_>>()` with a closure that mutates captured state calls f once per
+/// item, in order, and keeps the results in order - exactly what `loop { match it.next() { Some(x) => out.push(f(x)), None => break } }` does
+#[kani::proof]
+#[kani::unwind(6)]
+fn std_map_collect_is_the_loop() {
+    let data: [u8; 3] = kani::any();
+    let len: usize = kani::any();
+    kani::assume(len <= 3);
+    let src: Vec<u8> = data[..len].to_vec();
+    // pipeline form (closure captures `calls` mutably, like register_types / map_into_portable capture the registry)
+    let mut calls: u32 = 0;
+    let a: Vec<u32> = src.clone().into_iter().map(|x| { calls += 1; (x as u32) * 8 + calls }).collect::<Vec<_>>();
+    // loop form (rule R20)
+    let mut calls2: u32 = 0;
+    let b: Vec<u32> = { let mut out = Vec::new(); let mut it = src.into_iter(); loop { match it.next() { Some(x) => { out.push({ calls2 += 1; (x as u32) * 8 + calls2 }); } None => { break; } } } out };
+    assert!(calls == calls2 && a.len() == b.len() && a.len() == len);
+    let mut i = 0;
+    while i < len {
+        assert!(a[i] == b[i], "same results in the same order");
+        i += 1;
+    }
+}
+
+/// BOUNDED (<= 3 elements): `iter().enumerate().map(|(i, x)| ..).collect()` numbers the items 0, 1, 2 .. in order (finish)
+#[kani::proof]
+#[kani::unwind(6)]
+fn std_enumerate_collect_is_the_loop() {
+    let data: [u8; 3] = kani::any();
+    let len: usize = kani::any();
+    kani::assume(len <= 3);
+    let src: &[u8] = &data[..len];
+    let a: Vec<(u32, u8)> = src.iter().enumerate().map(|(i, x)| (i as u32, *x)).collect();
+    let b: Vec<(u32, u8)> = { let mut out = Vec::new(); let mut n: usize = 0; let mut it = src.iter(); loop { match it.next() { Some(x) => { let i = n; n += 1; out.push((i as u32, *x)); } None => { break; } } } out };
+    assert!(a.len() == len && b.len() == len);
+    let mut i = 0;
+    while i < len {
+        assert!(a[i] == b[i] && a[i].0 == i as u32 && a[i].1 == data[i]);
+        i += 1;
+    }
+}
+
+/// BOUNDED (<= 3 elements): `into_iter().filter(p).collect()` keeps exactly the accepted items in order (TypeDefTuple::new)
+#[kani::proof]
+#[kani::unwind(6)]
+fn std_filter_collect_is_the_loop() {
+    let data: [u8; 3] = kani::any();
+    let len: usize = kani::any();
+    kani::assume(len <= 3);
+    let k: u8 = kani::any();
+    let src: Vec<u8> = data[..len].to_vec();
+    let c: Vec<u8> = src.clone().into_iter().filter(|x| *x != k).collect();
+    let d: Vec<u8> = { let mut out = Vec::new(); let mut it = src.into_iter(); loop { match it.next() { Some(x0) => { if { let x = &x0; *x != k } { out.push(x0); } } None => { break; } } } out };
+    assert!(c.len() == d.len() && c.len() <= len);
+    let mut j = 0;
+    while j < c.len() {
+        assert!(c[j] == d[j] && c[j] != k);
+        j += 1;
+    }
+}
+
+/// COMPLETE (all pairs of u32): mem::replace returns the old value and stores the new one (assumption A3, used by retain)
+#[kani::proof]
+fn std_mem_replace_u32() {
+    let mut a: u32 = kani::any();
+    let b: u32 = kani::any();
+    let old = a;
+    let r = core::mem::replace(&mut a, b);
+    assert!(r == old && a == b);
+}
+
+/// BOUNDED (<= 4 ASCII bytes / <= 4 elements): String::from(&str) keeps the bytes (A6), <[T]>::to_vec keeps the elements (A8)
+#[kani::proof]
+#[kani::unwind(7)]
+fn std_string_from_and_to_vec_small() {
+    let bytes: [u8; 4] = kani::any();
+    let len: usize = kani::any();
+    kani::assume(len <= 4);
+    kani::assume(bytes[0] < 128 && bytes[1] < 128 && bytes[2] < 128 && bytes[3] < 128);
+    let s = ascii(&bytes, len);
+    let owned = alloc::string::String::from(s);
+    let v = bytes[..len].to_vec();
+    assert!(owned.len() == len && v.len() == len);
+    let ob = owned.as_bytes();
+    let mut i = 0;
+    while i < len {
+        assert!(ob[i] == bytes[i] && v[i] == bytes[i]);
+        i += 1;
+    }
+}
